@@ -213,6 +213,9 @@ def run_with_mask(spec, script):
         instr.ArgLogObjective = orig
 
 
+REPLAY = ("masked", monitor)      # harness/replay.py re-executes a recorded spec through this monitor
+
+
 def replay(ctx, data):
     import json
     print(json.dumps(data, indent=1)[:6000])
